@@ -1,3 +1,202 @@
-(* C03 - placeholder while the judge is being validated; replaced below. *)
-From Coq Require Import List.
-Require Import SR.Model.Workbook.
+(* C03 - Format transparency: the same table reads the same from every file format.  PARTIAL:
+   the third-party parsers (csv, openpyxl, pyexcel, numbers_parser, xlrd, json) are OUTSIDE the model.
+   They enter as the universally quantified functions [ext_write] / [ext_parse] with the hypothesis
+   H_ext "what the parser delivers for the file the writer produced for W is the stored table" -
+   ASSUMED, NOT PROVED; it is an explicit premise of every theorem that uses it.  The two formats
+   the library decodes itself (fixed-width text, EBCDIC) are proved down to the file image, with no
+   such premise.  Only the property theorems are here, each closed by an exact lemma of
+   Proofs/WorkbookP.v.
+
+   Spec/Transparency.v   [table] = header + rows of text cells, [workbook] = named sheets in order,
+                         [cells_by_name], [pad_table], the writers [write_fixed_text] / [write_ebcdic],
+                         [numbers_doc] / [flatten_numbers] (the documented sheet::table names)
+   Model/Workbook.v      [open_read parse f img probes] = open_workbook(path) or the class for the format,
+                         sheet_iter(), schema bound by set_schema_loader(HeadingRowSchemaLoader()) for
+                         formats with a header row and by set_schema(...) for NDJSON, rows(),
+                         row.name(c).value() for the column names: per sheet (name, result of reading);
+                         [read_fixed] / [read_ebcdic] the same run for COBOL_Text_File / COBOL_EBCDIC_File
+                         on a file image with the schema of a copybook of X(w) items ([layout_of]);
+                         [phys f W] = the parser-level content of a file that stores W;
+                         [expected W] = every sheet by name, every row in order, the str under every column.
+   A value read is [Ok (Some (Txt s))] = the str s; [Err e] = the call raised. *)
+From Coq Require Import NArith List Lia.
+Import ListNotations.
+Require Import SR.Base.Res SR.Spec.Transparency SR.Gen.RecfmParams SR.Model.HeaderRow SR.Model.Workbook.
+Require Import SR.Proofs.WorkbookP.
+
+(* The file suffix alone selects the reader: for every format with a registered suffix the registry
+   (registrations read from the source on every run) hands the file to that format's class. *)
+Theorem C03_suffix : forall f : fmt, reader_for f = Ok f.
+Proof. exact reader_for_ok. Qed.
+Print Assumptions C03_suffix.
+
+(* Facade, both binding paths, UNDER H_ext.  For every workbook with distinct sheet names whose tables are
+   rectangular with distinct column names, stored in any third-party format (one table under the empty
+   name for the single-sheet formats): open -> sheet_iter -> rows -> name(c).value() returns exactly the
+   sheets (names, order), the rows (count, order) and the cell under every column name.
+   Header-row binding: CSV, TAB, XLSX, ODS, XLS (C09 lifted through sheet_iter); explicit schema: NDJSON. *)
+Theorem C03_facade : forall (image : Type) (ext_write : fmt -> workbook -> image) (ext_parse : fmt -> image -> content),
+  (forall f W, third_party f = true -> storable f W = true -> ext_parse f (ext_write f W) = phys f W) ->
+  forall f W, third_party f = true -> storable f W = true -> wf_workbook W ->
+    open_read ext_parse f (ext_write f W) (headers W) = Ok (expected W).
+Proof. exact facade_ok. Qed.
+Print Assumptions C03_facade.
+
+(* [expected] is the spec's by-name association for every row, and has the workbook's sheets and row counts *)
+Theorem C03_expected_by_name : forall T : table,
+  rows_by_name (t_header T) (expected_rows T) = expected_by_name T.
+Proof. exact expected_is_cells_by_name. Qed.
+Print Assumptions C03_expected_by_name.
+
+Theorem C03_expected_shape : forall W : workbook,
+  map fst (expected W) = map fst W
+  /\ Forall2 (fun o s => exists rows, snd o = Ok rows /\ length rows = length (t_rows (snd s))) (expected W) W.
+Proof. exact expected_shape. Qed.
+Print Assumptions C03_expected_shape.
+
+(* Numbers, UNDER H_num: every table of every sheet is presented as a sheet named sheet::table, provided
+   every (sheet, table) name pair splits back at the first separator (known finding 1 otherwise). *)
+Theorem C03_facade_numbers : forall (image : Type) (ext_parse : fmt -> image -> content) (num_write : numbers_doc -> image),
+  (forall d, ext_parse F_NUMBERS (num_write d) = phys_numbers d) ->
+  forall d, wf_numbers d ->
+    open_read ext_parse F_NUMBERS (num_write d) (headers (flatten_numbers d)) = Ok (expected (flatten_numbers d)).
+Proof. intros image ext_parse num_write H d Hd. exact (facade_numbers_ok image ext_parse num_write H d Hd). Qed.
+Print Assumptions C03_facade_numbers.
+
+(* a sheet name without a colon always splits back *)
+Theorem C03_numbers_names : forall s t : key,
+  forallb (fun c => negb (c =? 58)%N) s = true -> partition_sep (s ++ name_sep ++ t) = (s, t).
+Proof. exact partition_no_colon. Qed.
+Print Assumptions C03_numbers_names.
+
+(* known finding 1: a Numbers sheet named a::b holding table T cannot be read (KeyError) *)
+Theorem C03_refuted_1 :
+  NoDup (map fst bad_doc)
+  /\ read_header (phys_numbers bad_doc) (headers (flatten_numbers bad_doc))
+     = [([97; 58; 58; 98; 58; 58; 84]%N, Err KeyError)]
+  /\ read_header (phys_numbers bad_doc) (headers (flatten_numbers bad_doc)) <> expected (flatten_numbers bad_doc).
+Proof. exact numbers_refuted. Qed.
+Print Assumptions C03_refuted_1.
+
+(* Fixed-width text, NO hypothesis: reading the image the Coq writer produces, with the copybook layout of the
+   widths, gives back the padded table - for every table with distinct column names, cells no longer than
+   their columns and free of line breaks. *)
+Theorem C03_fixed_text : forall (T : table) (widths : list nat),
+  NoDup (t_header T) -> fits widths T = true -> line_safe T = true ->
+  read_fixed (write_fixed_text T widths) (layout_of (t_header T) widths) (t_header T)
+  = expected [([], pad_table widths T)].
+Proof. exact fixed_text_ok. Qed.
+Print Assumptions C03_fixed_text.
+
+(* EBCDIC, NO hypothesis: RECFM N (records no longer than the reader's buffer) or F, lrecl not given or the
+   record length, any Python file object kind; cells in the CP037 repertoire. *)
+Theorem C03_fixed_ebcdic : forall (r : recfm) (kind : N) (wb_lrecl : option nat) (T : table) (widths : list nat),
+  NoDup (t_header T) -> fits widths T = true -> repertoire_ok T = true -> t_header T <> [] ->
+  (r = RECFM_N -> list_sum widths <= N.to_nat buffer_size) ->
+  wb_lrecl = None \/ wb_lrecl = Some (list_sum widths) ->
+  read_ebcdic r kind wb_lrecl (write_ebcdic T widths) (layout_of (t_header T) widths) (t_header T)
+  = expected [([], pad_table widths T)].
+Proof. exact ebcdic_ok. Qed.
+Print Assumptions C03_fixed_ebcdic.
+
+(* the repertoire of CP037 is Latin-1, decoding inverts encoding on it, and cells that fill their columns
+   are not changed by padding *)
+Theorem C03_repertoire :
+  (forall c, (c < 256)%N -> in_repertoire c = true)
+  /\ (forall c, in_repertoire c = true -> Estruct.cp037 (encode_char c) = c)
+  /\ (forall widths T, fits_exactly widths T = true -> pad_table widths T = T).
+Proof. split; [exact latin1_in_repertoire|]. split; [exact decode_encode|exact pad_table_exact]. Qed.
+Print Assumptions C03_repertoire.
+
+(* Hence any two formats agree (UNDER H_ext): on sheets, rows and every cell by name ... *)
+Theorem C03_agree : forall (image : Type) (ext_write : fmt -> workbook -> image) (ext_parse : fmt -> image -> content),
+  (forall f W, third_party f = true -> storable f W = true -> ext_parse f (ext_write f W) = phys f W) ->
+  forall f g W, third_party f = true -> third_party g = true ->
+    storable f W = true -> storable g W = true -> wf_workbook W ->
+    open_read ext_parse f (ext_write f W) (headers W) = open_read ext_parse g (ext_write g W) (headers W).
+Proof. exact agree_ok. Qed.
+Print Assumptions C03_agree.
+
+(* ... and the fixed-width file of T reads like any third-party format's file of the padded T
+   (of T itself when the cells fill their columns: C03_repertoire, third part). *)
+Theorem C03_agree_fixed : forall (image : Type) (ext_write : fmt -> workbook -> image) (ext_parse : fmt -> image -> content),
+  (forall f W, third_party f = true -> storable f W = true -> ext_parse f (ext_write f W) = phys f W) ->
+  forall f T widths, third_party f = true -> NoDup (t_header T) -> fits widths T = true ->
+    (line_safe T = true ->
+       open_read ext_parse f (ext_write f [([], pad_table widths T)]) [t_header T]
+       = Ok (read_fixed (write_fixed_text T widths) (layout_of (t_header T) widths) (t_header T)))
+    /\ (forall r kind wb_lrecl, repertoire_ok T = true -> t_header T <> [] ->
+          (r = RECFM_N -> list_sum widths <= N.to_nat buffer_size) ->
+          wb_lrecl = None \/ wb_lrecl = Some (list_sum widths) ->
+          open_read ext_parse f (ext_write f [([], pad_table widths T)]) [t_header T]
+          = Ok (read_ebcdic r kind wb_lrecl (write_ebcdic T widths) (layout_of (t_header T) widths) (t_header T))).
+Proof.
+  intros image ext_write ext_parse H f T widths Htp Hnd Hfit. split.
+  - intros Hsafe. exact (agree_fixed_text image ext_write ext_parse H f T widths Htp Hnd Hfit Hsafe).
+  - intros r kind wb_lrecl Hrep Hne Hbuf Hl.
+    exact (agree_ebcdic image ext_write ext_parse H f r kind wb_lrecl T widths Htp Hnd Hfit Hrep Hne Hbuf Hl).
+Qed.
+Print Assumptions C03_agree_fixed.
+
+(* Single-sheet formats present one sheet named '' - whatever the file holds (no hypothesis). *)
+Theorem C03_single_sheet :
+  (forall rows, sheet_names (C_single rows) = [[]])
+  /\ (forall docs, sheet_names (C_json docs) = [[]])
+  /\ (forall f W, third_party f = true -> single_sheet f = true -> sheet_names (phys f W) = [[]])
+  /\ (forall f c probes, third_party f = true -> single_sheet f = true -> sheet_names c = [[]] ->
+        map fst (facade_read f c probes) = [[]])
+  /\ (forall file l probes, map fst (read_fixed file l probes) = [[]])
+  /\ (forall r kind wb_lrecl file l probes, map fst (read_ebcdic r kind wb_lrecl file l probes) = [[]]).
+Proof. exact single_sheet_names. Qed.
+Print Assumptions C03_single_sheet.
+
+(* ---- non-vacuity: the hypotheses are satisfiable, on a table with two columns and two rows ---- *)
+Definition ex_T : table :=
+  mk_table [[65]; [66; 50]]%N [[[97; 98]; [233]]; [[48; 48; 49]; [32]]]%N.     (* A, B2 | ab, e-acute | 001, blank *)
+
+Lemma ex_T_wf : wf_table ex_T.
+Proof.
+  split; [|reflexivity].
+  cbn. constructor; [intros [H|[]]; discriminate H|]. constructor; [intros []|constructor].
+Qed.
+
+Example C03_example_wf : wf_workbook [([83]%N, ex_T); ([84]%N, ex_T)] /\ wf_workbook [([], ex_T)].
+Proof.
+  split; split.
+  - cbn [map fst]. constructor; [intros [H|[]]; discriminate H|]. constructor; [intros []|constructor].
+  - constructor; [exact ex_T_wf|]. constructor; [exact ex_T_wf|constructor].
+  - cbn [map fst]. constructor; [intros []|constructor].
+  - constructor; [exact ex_T_wf|constructor].
+Qed.
+
+(* the third-party premise has a model: parsers and writers that are inverse to each other *)
+Example C03_example_H_ext :
+  exists (ext_write : fmt -> workbook -> fmt * workbook) (ext_parse : fmt -> fmt * workbook -> content),
+    forall f W, third_party f = true -> storable f W = true -> ext_parse f (ext_write f W) = phys f W.
+Proof. exists (fun f W => (f, W)), (fun _ p => phys (fst p) (snd p)). reflexivity. Qed.
+
+Example C03_example_fixed :
+  fits [3; 2] ex_T = true /\ line_safe ex_T = true /\ repertoire_ok ex_T = true /\ t_header ex_T <> []
+  /\ list_sum [3; 2] <= N.to_nat buffer_size
+  /\ write_fixed_text ex_T [3; 2] = [97; 98; 32; 233; 32; 10; 48; 48; 49; 32; 32; 10]%N
+  /\ write_ebcdic ex_T [3; 2] = [129; 130; 64; 81; 64; 240; 240; 241; 64; 64]%N
+  /\ read_fixed (write_fixed_text ex_T [3; 2]) (layout_of (t_header ex_T) [3; 2]) (t_header ex_T)
+     = [([], Ok [[Ok (Some (Txt [97; 98; 32]%N)); Ok (Some (Txt [233; 32]%N))];
+                 [Ok (Some (Txt [48; 48; 49]%N)); Ok (Some (Txt [32; 32]%N))]])].
+Proof.
+  repeat split; try (vm_compute; reflexivity); try discriminate.
+  change (list_sum [3; 2]) with 5. unfold buffer_size. lia.
+Qed.
+
+Example C03_example_numbers :
+  wf_numbers [([83]%N, [([84; 49]%N, ex_T); ([84; 50]%N, ex_T)])]
+  /\ map fst (flatten_numbers [([83]%N, [([84; 49]%N, ex_T); ([84; 50]%N, ex_T)])])
+     = [[83; 58; 58; 84; 49]; [83; 58; 58; 84; 50]]%N.
+Proof.
+  split; [|reflexivity]. split; [|split].
+  - cbn [map fst]. constructor; [intros []|constructor].
+  - constructor; [|constructor]. split.
+    + cbn [map fst snd]. constructor; [intros [H|[]]; discriminate H|]. constructor; [intros []|constructor].
+    + constructor; [exact ex_T_wf|]. constructor; [exact ex_T_wf|constructor].
+  - intros s t [<-|[]] [<-|[<-|[]]]; reflexivity.
+Qed.
